@@ -9,7 +9,7 @@ LEVEL = 'fault_enumeration'
 RULE = ('every formula cell (and array formula) of every workbook in turn made to fail -- unknown function, plugin '
         'raising always, plugin raising on its 1st / 2nd call only -- in plain and iterative mode; all follow-up '
         'histories up to the stated depth (plus the depth-4 patterns evaluate, repair, write an input, evaluate in both orders) over {evaluate(any cell/range), set_value(input, v), repair = '
-        'set_value(failing cell, constant)} are executed on the real compiler. Oracle per operation: evaluating the '
+        'set_value(failing cell, constant), validate_calcs(output) and trim_graph(input, output) as entry points that evaluate outside evaluate()} are executed on the real compiler. Oracle per operation: evaluating the '
         'failing cell or a descendant (descendants from the specification) while the fault is active raises a '
         'PyCelException subclass; everything else equals a from-scratch model with the current inputs / repair. '
         'distinct_nontrivial = distinct (workbook, fault, history) in which a failure actually occurred and a later '
@@ -71,6 +71,7 @@ class Sim:
         self.repaired = False
         self.failed_once = False
         self.precedent_written_after_repair = False
+        self.trimmed = False
 
     def affected(self, addr):
         sh, ref = W.split_addr(addr)
@@ -101,6 +102,25 @@ class Sim:
                 r = ('refused',) if 'not found in the cell map' in str(exc) else ('exc', 'AssertionError', [], str(exc)[-200:])
             except Exception as exc:
                 r = ('exc', type(exc).__name__, [], str(exc)[-200:])
+        elif op[0] == 'validate':
+            # another entry point that builds the graph and evaluates: the report is not judged, the model must stay sound
+            import contextlib
+            import io
+            try:
+                with contextlib.redirect_stdout(io.StringIO()):
+                    self.m.validate_calcs(output_addrs=[op[1]])
+                r = ('validated',)
+            except Exception as exc:
+                r = ('entry-raised', type(exc).__name__, [], str(exc)[-120:])
+        elif op[0] == 'trim':
+            # trim_graph also builds the graph (and evaluates ranges) outside evaluate(); when it succeeds the model
+            # is a different one and the rest of the history is not judged
+            try:
+                self.m.trim_graph(list(op[1]), list(op[2]))
+                self.trimmed = True
+                r = ('trimmed',)
+            except Exception as exc:
+                r = ('entry-raised', type(exc).__name__, [], str(exc)[-120:])
         else:   # repair
             try:
                 for t in self.tcells:
@@ -218,6 +238,8 @@ def run_history(fam, target, kind, mode, hist, targets, acc, base):
     for k, op in enumerate(hist):
         res, fired = sim.step(op)
         acc.add('transitions')
+        if sim.trimmed:
+            break
         if res[0] == 'exc':
             acc.outcome(res[1])
             if failed_at is None:
@@ -244,6 +266,18 @@ def work(job):
     if ':' not in target:
         # an array formula cannot be overwritten through set_value (members keep the range formula): no repair op
         ops.append(('repair',))
+    if kind in ('unknown', 'always'):
+        # entry points other than evaluate() that build the graph and evaluate ranges on the way
+        deps = W.spec_deps(fam['spec'])
+        tc = [f'{W.split_addr(target)[0]}!{c}' for row in W.range_cells(W.split_addr(target)[1]) for c in row] if ':' in target else [target]
+        desc = set()
+        for t in tc:
+            desc |= W.descendants(deps, t)
+        outs = [c for c in fam['cells'] if c in desc and c in W.formula_cells(fam['spec'])]
+        if outs:
+            ops.append(('validate', outs[-1]))
+            if inputs:
+                ops.append(('trim', (inputs[0],), (outs[-1],)))
     base = dict(kind='fault', wb=fam['name'], fam={k: fam[k] for k in ('name', 'spec', 'ranges', 'unbounded', 'inputs', 'cells')},
                 target=target, fault=kind, mode=mode)
     n = 0
